@@ -578,7 +578,7 @@ def main():
         extra['impl_wall_s'] = round(dt_i, 2)
         extra['model_wall_s'] = round(dt_m, 2)
         project = proj_sqrt if pid in ('C18', 'C16', 'C17') else None
-        FL = r' (MUTATED:\S+|REPEAT-DIFF|RESULT-CHANGED)'
+        FL = r' (MUTATED:\S+|REPEAT-DIFF|RESULT-CHANGED|SCRIBBLE-GLOBALS|SCRIBBLE-DIFF)'
         if pid != 'C17':
             # purity flags (argument / package state modified, result changed by a later call,
             # repeated call differs) are violations whatever the property under check
@@ -638,7 +638,7 @@ def main():
                     break
         # third voice: the specification evaluated independently (gen/oracle.py)
         orc_cov, orc_bad = 0, []
-        impl_cmp = [re.sub(r' (MUTATED:\S+|REPEAT-DIFF|RESULT-CHANGED)', '', x) for x in impl]
+        impl_cmp = [re.sub(r' (MUTATED:\S+|REPEAT-DIFF|RESULT-CHANGED|SCRIBBLE-GLOBALS|SCRIBBLE-DIFF)', '', x) for x in impl]
         for i, (line, cls) in enumerate(cases):
             if i >= len(impl_cmp):
                 break
